@@ -52,6 +52,17 @@ macro_rules! binop_forms {
             x $asg &b;
             val(x)
         });
+        if Bn::enc(&a) == Bn::enc(&b) {
+            // both operands are the same object (aliased references), not merely equal values
+            $rec.form("op_rr_same", || val(&a $op &a));
+            $rec.form("op_vr_same", || val(a $op &a));
+            $rec.form("op_assign_same", || {
+                let mut x = a;
+                let y = x;
+                x $asg &y;
+                val(x)
+            });
+        }
     }};
 }
 
@@ -155,6 +166,8 @@ macro_rules! shift_bnum_forms {
                 let v = <$t as Bn>::dec(&ab);
                 $rec.form($name, || val(x $op v));
                 $rec.form(concat!($name, "_rr"), || val(&x $op &v));
+                $rec.form(concat!($name, "_vr"), || val(x $op &v));
+                $rec.form(concat!($name, "_rv"), || val(&x $op v));
                 $rec.form(concat!($name, "_assign"), || {
                     let mut y = x;
                     y $asg v;
